@@ -133,3 +133,143 @@ def g_bool_const(rnd, g, depth):
     if c < 0.9:
         return ("not", g_bool_const(rnd, g, depth - 1))
     return (rnd.choice(["eq", "neq"]), g_bool_const(rnd, g, depth - 1), g_bool_const(rnd, g, depth - 1))
+
+
+def gen_tp(rnd, idx):
+    """constraint-only program over time points (the `tp` type, handled by the real difference logic theory): difference constraints in all
+    the accepted shapes, posted in random order, alone or inside disjunctions; mostly built around a planted assignment"""
+    n = rnd.randint(2, 5)
+    tps = ["p%d" % i for i in range(n)]
+    nb = rnd.randint(0, 2)
+    bools = ["b%d" % i for i in range(nb)]
+    planted = {v: (Fraction(rnd.randint(-4, 20), rnd.choice([1, 1, 2])), Z) for v in tps}
+    for b in bools:
+        planted[b] = rnd.random() < 0.5
+    sat_mode = rnd.random() < 0.75
+
+    def k():
+        c = rnd.random()
+        if c < 0.6:
+            return num(rnd.randint(0, 12))
+        return num(Fraction(rnd.randint(0, 40), rnd.choice([2, 4])), "real")
+
+    def atom():
+        x, y = rnd.sample(tps, 2)
+        X, Y = ("id", [x]), ("id", [y])
+        rel = rnd.choice(["leq", "geq", "lt", "gt", "eq", "leq", "geq", "leq"])
+        shape = rnd.random()
+        c = k()
+        if rnd.random() < 0.3:
+            c = ("neg", c)
+        if shape < 0.3:
+            return (rel, ("sub", [X, Y]), c)
+        if shape < 0.45:
+            return (rel, X, ("add", [Y, c]))
+        if shape < 0.55:
+            return (rel, ("add", [X, c]), Y)
+        if shape < 0.65:
+            return (rel, ("sub", [X, k()]), ("sub", [Y, c]))
+        if shape < 0.8:
+            return (rel, X, c)
+        if shape < 0.9:
+            return (rel, c, X)
+        return (rel, X, Y)
+
+    def fit(e):
+        """make the atom true under the planted assignment by flipping / relaxing it"""
+        try:
+            v = ev(e, planted)
+        except riddle.Unknown:
+            return None
+        if v is True:
+            return e
+        flip = {"leq": "gt", "gt": "leq", "geq": "lt", "lt": "geq"}
+        if e[0] in flip:
+            return (flip[e[0]], e[1], e[2])
+        # an equality that does not hold: turn it into the inequality that does
+        for r in ("leq", "geq"):
+            if ev((r, e[1], e[2]), planted) is True:
+                return (r, e[1], e[2])
+        return None
+
+    cons = []
+    for _ in range(rnd.randint(2, 9)):
+        c = rnd.random()
+        if c < 0.7:
+            e = atom()
+            if sat_mode:
+                e = fit(e)
+        else:
+            parts = [atom() for _ in range(rnd.randint(2, 3))]
+            if bools and rnd.random() < 0.4:
+                b = rnd.choice(bools)
+                parts.append(("id", [b]) if rnd.random() < 0.5 else ("not", ("id", [b])))
+            if sat_mode:
+                j = rnd.randrange(len(parts))
+                f = fit(parts[j]) if parts[j][0] not in ("id", "not") else None
+                if f is None:
+                    f = fit(atom())
+                if f is None:
+                    continue
+                parts[j] = f
+            e = ("or", parts)
+        if e is not None:
+            cons.append(e)
+    if sat_mode and rnd.random() < 0.5 and len(tps) >= 3:
+        # an equality chain consistent with the plant: exercises new_eq and the joining of already constrained points
+        x, y = rnd.sample(tps, 2)
+        d = planted[x][0] - planted[y][0]
+        cons.append(("eq", ("sub", [("id", [x]), ("id", [y])]), num(d, "real") if d >= 0 else ("neg", num(-d, "real"))))
+    if rnd.random() < 0.8:
+        # a time point without a lower bound is reported at -inf: bound them (consistently with the plant) so that the solution can be evaluated
+        for v in tps:
+            lo = planted[v][0] - rnd.choice([0, 0, 1, 3, 10])
+            cons.append(("geq", ("id", [v]), num(lo, "real") if lo >= 0 else ("neg", num(-lo, "real"))))
+    rnd.shuffle(cons)
+    pr = Printer(rnd)
+    decls = ["tp %s;" % v for v in tps] + ["bool %s;" % b for b in bools]
+    rnd.shuffle(decls)
+    stmts = decls + [pr.expr(e) + ";" for e in cons]
+    return {"family": "tp", "id": "tp-%d" % idx, "text": _layout(rnd, stmts), "reals": tps, "bools": bools, "kinds": {v: "tp" for v in tps},
+            "cons": cons, "planted": planted if sat_mode else None}
+
+
+def equivalent_variant(rnd, case):
+    """an equivalent formulation of a constraint-only case (cons / tp family): independent statements reordered, identifiers renamed,
+    commutative arguments reordered, tautologies added; returns (text, what was done)"""
+    what = []
+    ren = {}
+    names = list(case["reals"]) + list(case["bools"])
+    if rnd.random() < 0.7:
+        fresh = ["v%d" % i for i in range(40, 40 + len(names))]
+        rnd.shuffle(fresh)
+        ren = dict(zip(names, fresh))
+        what.append("renamed")
+    cons = [riddle.transform(e, rnd if rnd.random() < 0.7 else None, ren) for e in case["cons"]]
+    if rnd.random() < 0.8:
+        rnd.shuffle(cons)
+        what.append("reordered")
+    pr = Printer(rnd)
+    stmts = [pr.expr(e) + ";" for e in cons]
+    if rnd.random() < 0.6:
+        what.append("tautologies")
+        for _ in range(rnd.randint(1, 3)):
+            c = rnd.random()
+            if c < 0.3 or not names:
+                t = "%d <= %d;" % (rnd.randint(0, 3), rnd.randint(3, 6))
+            elif c < 0.6 and case["reals"]:
+                v = ren.get(rnd.choice(case["reals"]), None) or rnd.choice(case["reals"])
+                t = rnd.choice(["%s == %s;", "%s <= %s;", "%s >= %s;"]) % (v, v)
+            elif case["bools"]:
+                v = ren.get(rnd.choice(case["bools"]), None) or rnd.choice(case["bools"])
+                t = "%s | !%s;" % (v, v)
+            else:
+                t = "true;"
+            stmts.insert(rnd.randint(0, len(stmts)), t)
+    decls = []
+    for v in case["reals"]:
+        decls.append("%s %s;" % (case["kinds"][v], ren.get(v, v)))
+    for b in case["bools"]:
+        decls.append("bool %s;" % ren.get(b, b))
+    rnd.shuffle(decls)
+    return _layout(rnd, decls + stmts), "+".join(what) or "relayout"
